@@ -322,4 +322,4 @@ def st_program(ctx: Ctx):
     return st.fixed_dictionaries({"prefix": base, "rejected": st.lists(rej, min_size=1, max_size=3)})
 
 
-PARTS = [Part("programs", check_program, strategy=st_program, quick=4000, thorough=96000)]
+PARTS = [Part("programs", check_program, strategy=st_program, quick=12000, thorough=200000)]
